@@ -7,9 +7,9 @@ def run(ctx):
     system.design(ctx, "out")
     for tags in (["verif"] + (["verif poll_opt gc_opt"] if ctx.thorough else [])):
         t = system.record(ctx, "sys-" + tags.replace(" ", "+"), tags=tags)
-        system.validate(ctx, t, ["TrOut", "TrLife"], "outbound streams, " + tags)
+        system.validate(ctx, t, ["TrOut", "TrArm", "TrLife"], "outbound streams, " + tags)
     t = system.record(ctx, "client", test="TestVerifClient")
-    system.validate(ctx, t, ["TrOut"], "client engine (Dial / Enroll), outbound streams")
+    system.validate(ctx, t, ["TrOut", "TrArm"], "client engine (Dial / Enroll), outbound streams")
     ctx.assumptions += system.SYS_ASSUME
     return vlib.finish(ctx, "model_checking",
-                       "one case = one engine life (6 configurations {LT, ET, ET+chunk} x {tcp, unix} per round, random loops / reuse-port / buffer sizes) with 6-11 scripted connections each, plus 6 client-engine lives (gnet.Client dialling / enrolling connections to listening peers): segmentations (1 byte, exactly the read buffer, bursts, data+FIN), consumption policies (Read/Next/Peek+Discard/Discard/WriteTo, lazy, peek-only); every event validated by TrOut.tla (per-writer order, content, only issued frames, OutboundBuffered accounting against the bytes handed to the kernel, completeness at drain, stranded-output witness)")
+                       "one case = one engine life (6 configurations {LT, ET, ET+chunk} x {tcp, unix} per round, random loops / reuse-port / buffer sizes) with 6-11 scripted connections each, plus 6 client-engine lives (gnet.Client dialling / enrolling connections to listening peers): segmentations (1 byte, exactly the read buffer, bursts, data+FIN), consumption policies (Read/Next/Peek+Discard/Discard/WriteTo, lazy, peek-only); every event validated by TrOut.tla (per-writer order, content, only issued frames, OutboundBuffered accounting against the bytes handed to the kernel, completeness at drain, stranded-output witness) and TrArm.tla (level-triggered mode: a callback that returns with a backlog leaves the connection registered for write readiness)")
